@@ -386,7 +386,7 @@ func (a *Allocation) packetConnHandler(manager *Manager) {
 	for {
 		n, srcAddr, err := a.relayPacketConn.ReadFrom(buffer)
 		if err != nil {
-			manager.DeleteAllocation(a.fiveTuple)
+			manager.deleteAllocation(a.fiveTuple, a)
 
 			return
 		}
@@ -450,7 +450,7 @@ func (a *Allocation) connHandler(manager *Manager) {
 	for {
 		conn, err := a.relayListener.Accept()
 		if err != nil {
-			manager.DeleteAllocation(a.fiveTuple)
+			manager.deleteAllocation(a.fiveTuple, a)
 
 			return
 		}
